@@ -68,6 +68,9 @@ def run(ctx):
 
     cte_rule(ctx, prog)
     min_max_rule(ctx, prog)
+    # ORDER BY answers depend on what the planner believes about operator output order (after seed C02-e = C12-b)
+    from rules.c12 import order_claims_rule
+    order_claims_rule(ctx, prog, 'C02-R7')
     run_r4(ctx, prog)   # three-valued logic in WHERE/ON: a NULL predicate must not read as TRUE (same rule as C14-R6)
     R3 = 'C02-R3'
     ctx.rule(R3, 'SUM on the per-value path (hash/sort aggregation): the combinator applied to (state, value) must skip a NULL '
